@@ -259,3 +259,18 @@ Proof.
   - repeat constructor; simpl; intuition congruence.
   - vm_compute. discriminate.
 Qed.
+
+(* find_stale_sccs replays the cached errors of a fresh SCC in SET ITERATION order when at most one module has errors:
+   fine, a list of length <= 1 has one enumeration; with two elements it has two (why the bound must stay 1). *)
+Lemma enum_le1_unique : forall (A : Type) (l l' : list A), Permutation l l' -> length l <= 1 -> l = l'.
+Proof.
+  intros A l l' P H. destruct l as [|x [|y r]]; simpl in H.
+  - apply Permutation_nil in P. subst; reflexivity.
+  - apply Permutation_length_1_inv in P. subst; reflexivity.
+  - lia.
+Qed.
+
+Lemma enum_2_refuted : exists (l l' : list name), Permutation l l' /\ length l = 2 /\ l <> l'.
+Proof.
+  exists [[97%N]; [98%N]], [[98%N]; [97%N]]. split; [apply perm_swap|]. split; [reflexivity|discriminate].
+Qed.
